@@ -65,6 +65,8 @@ def contexts(E, n, in_t):
         "arrsize_t": ("tdecl", "int At%d[%s];" % (n, E)),
         "range_t": ("tdecl", "int[0,%s] Rt%d;" % (E, n)),
         "init_t": ("tdecl", "int It%d = %s;" % (n, E)),
+        "fparam_size_t": ("tdecl", "void Fs%d(int a[%s]) { }" % (n, E)),          # the type of a function parameter is a type like any other
+        "fparam_range_t": ("tdecl", "void Fr%d(int[0,%s] v) { }" % (n, E)),
         "init_t_double": ("tdecl", "double Dt%d = %s * 0.5;" % (n, E)),
         "init_t_bool": ("tdecl", "bool Bt%d = %s > 0;" % (n, E)),
         "select_dom": ("select", "ks%d : int[0,%s]" % (n, E)),
@@ -78,6 +80,9 @@ def contexts(E, n, in_t):
             "scalar_g": ("gdecl", "typedef scalar[%s] SS%d; SS%d sv%d;" % (E, n, n, n)),
             "init_g": ("gdecl", "int Ig%d = %s;" % (n, E)),
             # an initialiser is an initialiser whatever the type of the variable
+            "fparam_size_g": ("gdecl", "void Gs%d(int a[%s]) { }" % (n, E)),
+            "fparam_refsize_g": ("gdecl", "void Gq%d(int &a[%s]) { }" % (n, E)),
+            "fparam_range_g": ("gdecl", "int Gr%d(int[0,%s] v) { return v; }" % (n, E)),
             "init_g_double": ("gdecl", "double Dg%d = %s * 0.5;" % (n, E)),
             "init_g_bool": ("gdecl", "bool Bg%d = %s > 0;" % (n, E)),
             "init_g_array": ("gdecl", "int Ga%d[2] = { %s, 0 };" % (n, E)),
@@ -175,7 +180,7 @@ def run(tier):
     c.cov["traces_validated_against_impl"] = len(cases) + len(inst)
     c.cov["evaluations"] = len(cases) + len(inst)
     c.cov["distinct_nontrivial"] = nontrivial
-    c.cov["rule"] = "every dependence chain (6 leaves x link sequences of length<=3 over {const init, function return, function local, by-value call, template-level const}) in each of 20 compile-time contexts; 24 template-parameter/instantiation chains; non-trivial = semantics says not computable / must be rejected"
+    c.cov["rule"] = "every dependence chain (6 leaves x link sequences of length<=3 over {const init, function return, function local, by-value call, template-level const}) in each of 25 compile-time contexts; 24 template-parameter/instantiation chains; non-trivial = semantics says not computable / must be rejected"
     c.cov["exhaustive"] = True
     for k in (0, len(cases) // 2, len(cases) - 1):
         ch, ctx, g, t = info[cases[k]["id"]]
